@@ -21,6 +21,9 @@ def main(c):
         "(IL/DL cursor column, DECSTBM bottom beyond the page); halves of split wide glyphs and class-C operations while a wrap "
         "is pending are unconstrained",
         "cells are compared by what they show (foreground of a plain blank and underline colour without underline ignored)",
+        "a cluster that uniseg measures wider than two columns (U+2E3A, U+2E3B) is shown by the reference terminal as a narrow or "
+        "as a wide glyph (either accepted, xterm: narrow), never wider; parameters of seven digits and more are logged as one "
+        "symbolic value (the oracle compares parameters with screen sizes only: MC_VTRef ThmHuge)",
     ]
     if not c.replay:
         c.model_check(specs, "MC_VTRef.tla", "MC_VTRef.cfg" if c.tier == "quick" else "MC_VTRef_deep.cfg", workers=8)
@@ -34,7 +37,8 @@ def main(c):
         c.cov["oracle_actions_never_exercised"] = sorted(set(ORACLE_OPS) - {k for k, v in hits.items() if v > 0})
     return c.finish(
         rule="scenario = screen size x operation sequence over the C06 vocabulary (bounded-exhaustive over the boundary-parameter "
-             "alphabet from prepared start states: length 1 everywhere, length 2 and 3 on the small screens; seeded random long "
+             "alphabet from prepared start states: length 1 everywhere incl. every counted/positional function with 13 huge values "
+             "(2^16 .. 2^64+3, 10^30), length 2 and 3 on the small screens; seeded random long "
              "sequences on screens up to 12x6; fixed corner cases); after EVERY operation the emulator's grid, cursor, pending-wrap "
              "flag, pen, margins, active screen and saved cursors must be an outcome of the VTRef oracle; distinct = distinct "
              "scenario descriptor")
